@@ -5,6 +5,7 @@ import (
 	"go/token"
 	"go/types"
 	"sort"
+	"strconv"
 	"strings"
 
 	"verifcheck/core"
@@ -610,7 +611,7 @@ func runC10(c *Ctx) {
 				}
 			}
 			nSinks++
-			k := r.kind + ":" + r.what
+			k := r.kind + ":" + tc.stableExpr(r.what, r.node)
 			seq[k]++
 			key := f.Key() + " " + k
 			if seq[k] > 1 {
@@ -920,4 +921,116 @@ func loopConsumes(info *types.Info, body *ast.BlockStmt, readers map[string]bool
 		}
 	}
 	return readSeen && checked
+}
+
+// stableExpr renders the sink expression for the obligation key with the names of locals,
+// parameters and the receiver replaced by what defines them, so that renaming a variable does
+// not turn a known construct into a new one: a local assigned once from a call becomes
+// «Recv.Method», one assigned once from a constant-key look-up becomes «["k1"]["k2"]», the
+// receiver its type name, a parameter «param#i».
+func (tc *taintCtx) stableExpr(what string, node ast.Node) string {
+	info := tc.info
+	repl := map[string]string{}
+	describe := func(id *ast.Ident) {
+		v, ok := info.Uses[id].(*types.Var)
+		if !ok || v.IsField() || v.Pkg() == nil || v.Parent() == v.Pkg().Scope() {
+			return
+		}
+		if _, done := repl[id.Name]; done {
+			return
+		}
+		// receiver / parameters
+		if tc.f.Decl != nil && tc.f.Decl.Recv != nil {
+			for _, fl := range tc.f.Decl.Recv.List {
+				for _, n := range fl.Names {
+					if info.Defs[n] == v {
+						name := core.ObjNameOfType(v.Type())
+						if i := strings.LastIndex(name, "."); i >= 0 {
+							name = name[i+1:]
+						}
+						repl[id.Name] = "«" + name + "»"
+						return
+					}
+				}
+			}
+		}
+		k := 0
+		for _, fl := range tc.f.Type.Params.List {
+			for _, n := range fl.Names {
+				if info.Defs[n] == v {
+					repl[id.Name] = "«param#" + itoa(k) + "»"
+					return
+				}
+				k++
+			}
+		}
+		as := tc.g.AssignsTo(v)
+		if len(as) != 1 {
+			return
+		}
+		a, isA := as[0].Node.(*ast.AssignStmt)
+		if !isA || len(a.Rhs) != 1 {
+			return
+		}
+		switch r := ast.Unparen(a.Rhs[0]).(type) {
+		case *ast.CallExpr:
+			if n := core.CalleeName(info, r); n != "" {
+				if i := strings.Index(n, "."); i >= 0 && strings.Contains(n[:i], "/") {
+					n = n[i+1:]
+				}
+				repl[id.Name] = "«" + n + "»"
+			}
+		case *ast.IndexExpr:
+			keys := ""
+			e := ast.Expr(r)
+			for {
+				ix, isIx := ast.Unparen(e).(*ast.IndexExpr)
+				if !isIx {
+					break
+				}
+				k, isS := core.ConstString(info, ix.Index)
+				if !isS {
+					return
+				}
+				keys = "[" + strconv.Quote(k) + "]" + keys
+				e = ix.X
+			}
+			if keys != "" {
+				repl[id.Name] = "«" + keys + "»"
+			}
+		}
+	}
+	ast.Inspect(node, func(n ast.Node) bool {
+		if id, ok := n.(*ast.Ident); ok {
+			describe(id)
+		}
+		return true
+	})
+	if len(repl) == 0 {
+		return what
+	}
+	// replace whole identifiers only
+	var b strings.Builder
+	i := 0
+	isIdent := func(c byte) bool {
+		return c == '_' || c >= '0' && c <= '9' || c >= 'a' && c <= 'z' || c >= 'A' && c <= 'Z'
+	}
+	for i < len(what) {
+		if isIdent(what[i]) && (i == 0 || (!isIdent(what[i-1]) && what[i-1] != '.')) {
+			j := i
+			for j < len(what) && isIdent(what[j]) {
+				j++
+			}
+			if r, ok := repl[what[i:j]]; ok {
+				b.WriteString(r)
+			} else {
+				b.WriteString(what[i:j])
+			}
+			i = j
+			continue
+		}
+		b.WriteByte(what[i])
+		i++
+	}
+	return b.String()
 }
